@@ -24,8 +24,9 @@ const me = 9
 func answer(t int, g uint64) uint64 { return uint64(t)*1000000 + g }
 
 type outstanding struct {
-	source int // requester peer; 0 = the agent's own caller
-	id     uint64
+	source int    // requester peer; 0 = the agent's own caller
+	id     uint64 // the id the requester used
+	hopID  uint64 // the id under which the request left the agent (what the target answers with)
 	target int
 	tag    uint64
 	// another outstanding request with the same bare id but a different
@@ -39,7 +40,7 @@ func monitor(c *vh.Ctx, rp Replay, obs []rh.CObs) {
 	var cancelled []outstanding // the agent's own requests whose caller gave up
 	add := func(o outstanding) {
 		for i := range outst {
-			if outst[i].id == o.id && outst[i].source != o.source {
+			if outst[i].hopID == o.hopID && outst[i].source != o.source {
 				outst[i].sharedID, o.sharedID = true, true
 				if outst[i].source == 0 || o.source == 0 {
 					outst[i].ownClash, o.ownClash = true, true
@@ -48,7 +49,7 @@ func monitor(c *vh.Ctx, rp Replay, obs []rh.CObs) {
 		}
 		for _, q := range cancelled {
 			// the late answer to a cancelled own request still travels under this bare id
-			if q.id == o.id && o.source != 0 {
+			if q.hopID == o.hopID && o.source != 0 {
 				o.sharedID, o.ownClash = true, true
 			}
 		}
@@ -72,7 +73,7 @@ func monitor(c *vh.Ctx, rp Replay, obs []rh.CObs) {
 			// forwarded? then it is outstanding at the target the agent sent it to
 			for _, m := range o.Out {
 				if !m.IsResp && m.Tag == ev.Tag {
-					add(outstanding{source: ev.From, id: ev.ID, target: m.To, tag: ev.Tag})
+					add(outstanding{source: ev.From, id: ev.ID, hopID: m.ID, target: m.To, tag: ev.Tag})
 				}
 			}
 			// forwarding towards a connected hop whose writes fail: the agent writes
@@ -84,16 +85,20 @@ func monitor(c *vh.Ctx, rp Replay, obs []rh.CObs) {
 					hop = ev.Path[0]
 				}
 				if connected[hop] && failing[hop] {
-					for j := range outst {
-						if outst[j].id == ev.ID && outst[j].source != ev.From {
-							outst[j].sharedID = true
+					// the transient entry lives under the id the agent would have used
+					// on the wire: the next value of its counter
+					if i > 0 {
+						for j := range outst {
+							if outst[j].hopID == obs[i].Next && outst[j].source != ev.From {
+								outst[j].sharedID = true
+							}
 						}
 					}
 				}
 			}
 		case "originate":
 			if o.NewID != 0 {
-				add(outstanding{source: 0, id: o.NewID, target: ev.Target, tag: ev.Tag})
+				add(outstanding{source: 0, id: o.NewID, hopID: o.NewID, target: ev.Target, tag: ev.Tag})
 			}
 		case "cancel":
 			for j, q := range outst {
@@ -107,7 +112,7 @@ func monitor(c *vh.Ctx, rp Replay, obs []rh.CObs) {
 			// which request does this answer belong to? the one whose answer tag it carries
 			idx := -1
 			for j, q := range outst {
-				if q.target == ev.From && answer(q.target, q.tag) == ev.Tag && q.id == ev.ID {
+				if q.target == ev.From && answer(q.target, q.tag) == ev.Tag && q.hopID == ev.ID {
 					idx = j
 				}
 			}
@@ -118,7 +123,7 @@ func monitor(c *vh.Ctx, rp Replay, obs []rh.CObs) {
 					for _, q := range cancelled {
 						// the late answer to the agent's own, cancelled request shares its bare id
 						// with a request the agent relays for somebody else
-						if q.id == ev.ID && q.target == ev.From && answer(q.target, q.tag) == ev.Tag {
+						if q.hopID == ev.ID && q.target == ev.From && answer(q.target, q.tag) == ev.Tag {
 							sig = "control-own-pending-id-collision"
 						}
 					}
@@ -246,24 +251,25 @@ func witnesses() []Replay {
 		w("shared-transit",
 			rh.CEvent{Ev: "req", From: 1, ID: 1, Target: 3, Path: []int{3}, Tag: 11},
 			rh.CEvent{Ev: "req", From: 2, ID: 1, Target: 4, Path: []int{4}, Tag: 22},
-			rh.CEvent{Ev: "resp", From: 3, ID: 1, Tag: answer(3, 11)},
-			rh.CEvent{Ev: "resp", From: 4, ID: 1, Tag: answer(4, 22)}),
+			rh.CEvent{Ev: "resp", From: 3, RefTag: 11, Tag: answer(3, 11)},
+			rh.CEvent{Ev: "resp", From: 4, RefTag: 22, Tag: answer(4, 22)}),
 		w("origin-and-relay",
 			rh.CEvent{Ev: "originate", Target: 3, Tag: 33},
 			rh.CEvent{Ev: "req", From: 1, ID: 1, Target: 4, Path: []int{4}, Tag: 44},
-			rh.CEvent{Ev: "resp", From: 4, ID: 1, Tag: answer(4, 44)},
-			rh.CEvent{Ev: "resp", From: 3, ID: 1, Tag: answer(3, 33)}),
+			rh.CEvent{Ev: "resp", From: 4, RefTag: 44, Tag: answer(4, 44)},
+			rh.CEvent{Ev: "resp", From: 3, RefTag: 33, Tag: answer(3, 33)}),
 		w("no-collision",
 			rh.CEvent{Ev: "req", From: 1, ID: 1, Target: 3, Path: []int{3}, Tag: 55},
 			rh.CEvent{Ev: "req", From: 2, ID: 2, Target: 4, Path: []int{4}, Tag: 66},
 			rh.CEvent{Ev: "originate", Target: 3, Tag: 77},
 			rh.CEvent{Ev: "originate", Target: 4, Tag: 88},
 			rh.CEvent{Ev: "originate", Target: 4, Tag: 99},
-			rh.CEvent{Ev: "resp", From: 4, ID: 2, Tag: answer(4, 66)},
-			rh.CEvent{Ev: "resp", From: 4, ID: 2, Tag: answer(4, 66)},
-			rh.CEvent{Ev: "resp", From: 3, ID: 1, Tag: answer(3, 55)},
-			rh.CEvent{Ev: "cancel", ID: 2},
-			rh.CEvent{Ev: "resp", From: 4, ID: 3, Tag: answer(4, 99)}),
+			rh.CEvent{Ev: "resp", From: 4, RefTag: 66, Tag: answer(4, 66)},
+			rh.CEvent{Ev: "resp", From: 4, RefTag: 66, Tag: answer(4, 66)},
+			rh.CEvent{Ev: "resp", From: 3, RefTag: 55, Tag: answer(3, 55)},
+			rh.CEvent{Ev: "cancel", ID: 4},
+			rh.CEvent{Ev: "resp", From: 4, RefTag: 99, Tag: answer(4, 99)},
+			rh.CEvent{Ev: "resp", From: 4, RefTag: 88, Tag: answer(4, 88)}),
 	}
 }
 
@@ -311,8 +317,19 @@ func main() {
 		}
 		var obs []rh.CObs
 		p := vh.Recover(func() {
-			for _, ev := range rp.Events {
-				obs = append(obs, run.Step(ev))
+			sentAs := map[uint64]uint64{} // request tag -> id under which the agent sent it on
+			for i, ev := range rp.Events {
+				if ev.Ev == "resp" && ev.RefTag != 0 {
+					ev.ID = sentAs[ev.RefTag]
+					rp.Events[i] = ev
+				}
+				o := run.Step(ev)
+				for _, m := range o.Out {
+					if !m.IsResp {
+						sentAs[m.Tag] = m.ID
+					}
+				}
+				obs = append(obs, o)
 			}
 		})
 		run.Close()
